@@ -114,6 +114,9 @@ def check_gen_chain(case, rec):
                 other = DecayMode(b, val, **md)
             if mode_fields(other) != mode_fields(dm):
                 raise Mismatch("C11:mode-constructor", f"{m!r}: daughters given as {how}", mode_fields(dm), mode_fields(other))
+        # a user may annotate a mode in place; that is the business of that one object
+        dm.metadata["__scratch_note__"] = "x"
+        own.metadata.clear()
     decaying = {d[0] for d in c["decays"]}
     occ = Counter(x for _, _, ds, _ in c["decays"] for x in ds if x in decaying)
     classes = []
